@@ -669,11 +669,20 @@ repsLoop:
 		}
 
 		var counter int
+		signed := []interop.PublicKey{}
 		for _, sig := range sigs[i] {
 			pubsI := Nodes(cid, uint8(i))
+		pubsLoop:
 			for iterator.Next(pubsI) {
 				pub := iterator.Value(pubsI).(interop.PublicKey)
+				// every member is counted once
+				for j := range signed {
+					if pub.Equals(signed[j]) {
+						continue pubsLoop
+					}
+				}
 				if crypto.VerifyWithECDsa(msg, pub, sig, crypto.Secp256r1Sha256) {
+					signed = append(signed, pub)
 					counter++
 					break
 				}
